@@ -58,9 +58,17 @@ impl<'i, 't, 'a> StepParser<'i, 't, 'a> {
     pub(crate) fn next_including_whitespace(
         &mut self,
     ) -> Result<StepToken<'i>, BasicParseError<'i>> {
-        let position = self.position();
-        let token = self.parser.next_including_whitespace().map(|x| x.clone())?;
-        Ok(StepToken { token, position })
+        loop {
+            let position = self.position();
+            let token = self
+                .parser
+                .next_including_whitespace_and_comments()
+                .map(|x| x.clone())?;
+            if let Token::Comment(_) = token {
+                continue;
+            }
+            return Ok(StepToken { token, position });
+        }
     }
 
     pub(crate) fn try_parse<F, T, E>(&mut self, thing: F) -> Result<T, E>
